@@ -295,7 +295,8 @@ PROPS["C03"] = dict(
     partial=["exhaustive reference quiescence only affordable with <= 12 men (busy positions: impl vs model only)",
              "board hand-back decided by the stream (getter comparison; at a root without legal moves the search adjudicates mate/stalemate on the caller's board: accepted, documented in DESIGN 7), not by a theorem",
              "for the engines' own float evaluations EvalOk is not instantiated (the engine theorems hold for any evaluation with EvalOk, e.g. material); no fuel-sufficiency result for TUROCHAMP's quiescence; "
-             "no harness op runs Go's AlphaBeta with the engine explorations against the model (their components are compared)"],
+             "the search BERNSTEIN runs (plausible table at every node + its float evaluation) is compared with the model exactly (cfg bern-static in the c03 stream: nodes, score, PV); for TUROCHAMP only the components are "
+             "compared (its evaluation reads the castled flags of the board, which the search model's leaf evaluation does not see)"],
     modelled=SEARCH_MODELLED,
 )
 
